@@ -197,9 +197,10 @@ def check_plumbing(run, A):
                       f'stored weight depends on {sorted(map(str, w.deps)) if w is not None else None}', construct=f'R-DEP::{ms.qual}::weight-update')
             # renormalised over the class axis
             g = A.graphs.get(ms)
-            divs = [e for e in g.events if e.kind == 'inplace' and e.term.op == 'iop' and e.term.args[0] == 'Div' and is_call_to(e.term.args[2], 'numpy.sum')]
-            okn = bool(divs) and all(const_val(call_arg(e.term.args[2], 1, 'axis')) == -2 and const_val(call_arg(e.term.args[2], None, 'keepdims')) is True
-                                     and call_arg(e.term.args[2], 0) is e.term.args[1] for e in divs)
+            from .c01 import _division_terms, class_sum_form
+            divs = [(dv, class_sum_form(dv.args[2])) for dv in _division_terms(g)]
+            divs = [(dv, cs) for dv, cs in divs if cs is not None]
+            okn = bool(divs) and all(cs[1] == -2 and cs[2] == -2 and strip_views(cs[0]) is strip_views(dv.args[1]) for dv, cs in divs)
             run.check(okn, 'R-AXIS', f'{short}: inline weights renormalised over the class axis', ms.loc(), '', 'weight /= sum(weight, axis=-2, keepdims=True) not found',
                       construct=f'R-AXIS::{ms.qual}::weight-renormalisation')
         # the returned model stores both updates
